@@ -299,6 +299,110 @@ func genC10(g *Gen) {
 			Tags: []string{"source:" + src.how, "policy:" + policyOpts[pol].name, fmt.Sprintf("follows=%d", k), fmt.Sprintf("varexp=%v", varexp)}, Nontrivial: true})
 	}
 	aliasCases(g, tc)
+	indepCases(g, tc)
+}
+
+// indepCases: configs whose root (or the child that is merged into) is a LIST: no dictionary
+// level above the merged entries takes a copy on the way.  After the merge an operation on one
+// side must leave the data of the other side as it is.
+func indepCases(g *Gen, tc TreeCfg) {
+	r := g.R
+	entry := func() interface{} {
+		switch r.Intn(4) {
+		case 0:
+			return randMap(r, tc, 1)
+		case 1:
+			return []interface{}{randScalar(r), randMap(r, tc, 2)}
+		default:
+			return randScalar(r)
+		}
+	}
+	list := func() []interface{} {
+		l := make([]interface{}, 1+r.Intn(3))
+		for i := range l {
+			l[i] = entry()
+		}
+		return l
+	}
+	data := func(c *ucfg.Config, opts []ucfg.Option) string {
+		u, err := unpackAny(c, opts...)
+		if err != nil {
+			return "(OStr " + coqStr("error: "+err.Error()) + ")"
+		}
+		return coqOTree(u)
+	}
+	names := []string{"0", "1", "0.a", "0.b", "1.a", "0.0", "0.1", "0.1.a", "2", "0.l.0"}
+	edit := func(c *ucfg.Config, opts []ucfg.Option) string {
+		name := names[r.Intn(len(names))]
+		switch r.Intn(3) {
+		case 0:
+			c.SetString(name, -1, "edited", opts...)
+			return "SetString(" + name + ")"
+		case 1:
+			c.Remove(name, -1, opts...)
+			return "Remove(" + name + ")"
+		default:
+			c.SetInt(name, -1, 42, opts...)
+			return "SetInt(" + name + ")"
+		}
+	}
+	for i := 0; i < g.N/3+4; i++ {
+		opts := []ucfg.Option{ucfg.PathSep(".")}
+		dl, sl := list(), list()
+		pol := r.Intn(len(policyOpts))
+		mo := append([]ucfg.Option{}, opts...)
+		if p := policyOpts[pol]; p.opt != nil {
+			mo = append(mo, p.opt)
+		}
+		g.Mark(map[string]interface{}{"dst": encTree(dl), "src": encTree(sl), "policy": policyOpts[pol].name})
+		var dst, src *ucfg.Config
+		var err1, err2 error
+		how := "list roots"
+		if r.Bool() {
+			dst, err1 = ucfg.NewFrom(dl, opts...)
+		} else {
+			how = "a list child"
+			var outer *ucfg.Config
+			outer, err1 = ucfg.NewFrom(map[string]interface{}{"inputs": dl, "k": "v"}, opts...)
+			if err1 == nil {
+				dst, err1 = outer.Child("inputs", -1, opts...)
+			}
+		}
+		src, err2 = ucfg.NewFrom(sl, opts...)
+		if err1 != nil || err2 != nil || dst == nil {
+			g.Skip("not built")
+			continue
+		}
+		var from interface{} = src
+		if r.P(1, 3) {
+			from = []interface{}{src} // the source config as an entry of a list
+			how += ", source embedded in a list"
+		}
+		desc := map[string]interface{}{"kind": "independence", "how": how, "dst": descTree(dl), "src": descTree(sl), "policy": policyOpts[pol].name}
+		add := func(what string, before, after string) {
+			g.Add(Case{Coq: fmt.Sprintf("CIndep10 %s %s %s", coqStr(what), before, after),
+				Desc: map[string]interface{}{"kind": "independence", "what": what, "setup": desc}, Tags: []string{"independence"}, Nontrivial: true})
+		}
+		sb := data(src, opts)
+		var merr error
+		if p, _ := guard(func() { merr = dst.Merge(from, mo...) }); p {
+			add("PANIC in Merge", "ONil", "(OStr \"panic\")")
+			continue
+		}
+		_ = merr
+		add("the source around Merge", sb, data(src, opts))
+		for j := 0; j < 3; j++ {
+			if r.Bool() {
+				b := data(src, opts)
+				w := edit(dst, opts)
+				add("the source around "+w+" on the destination", b, data(src, opts))
+			} else {
+				b := data(dst, opts)
+				w := edit(src, opts)
+				add("the destination around "+w+" on the source", b, data(dst, opts))
+			}
+		}
+	}
 }
 
 // aliasCases: merging into a setting of the destination that is a reference to another setting
@@ -356,6 +460,8 @@ func aliasCases(g *Gen, tc TreeCfg) {
 func init() { register("C11", genC11) }
 
 type c11Captured struct {
+	Ref  *ucfg.Config            `config:"o2"`        // the setting is a reference to a namespace of the config
+	RefA *ucfg.Config            `config:"o3,append"` // the same, with a handling of its own
 	Sub  *ucfg.Config            `config:"s"`
 	Subs map[string]*ucfg.Config `config:"m"`
 	A    string                  `config:"a"`
@@ -441,6 +547,11 @@ func c11Reads() []c11Read {
 			err := d.Merge(c, o...)
 			return descValue(ucfg.VerifDump(d)) + resErr(err)
 		}},
+		c11Read{"merge source prepending to a list", func(c *ucfg.Config, o []ucfg.Option, _ *c11State) string {
+			d, _ := ucfg.NewFrom(map[string]interface{}{"l": []interface{}{"own"}}, o...)
+			err := d.Merge(c, append(append([]ucfg.Option{}, o...), ucfg.PrependValues)...)
+			return descValue(ucfg.VerifDump(d)) + resErr(err)
+		}},
 		c11Read{"child of null, written", func(c *ucfg.Config, o []ucfg.Option, _ *c11State) string {
 			ch, err := c.Child("z", -1, o...)
 			if err != nil {
@@ -457,6 +568,12 @@ func descCaptured(t *c11Captured) string {
 	var b strings.Builder
 	if t.Sub != nil {
 		b.WriteString("s=" + descValue(ucfg.VerifDump(t.Sub)))
+	}
+	if t.Ref != nil {
+		b.WriteString(" o2=" + descValue(ucfg.VerifDump(t.Ref)))
+	}
+	if t.RefA != nil {
+		b.WriteString(" o3=" + descValue(ucfg.VerifDump(t.RefA)))
 	}
 	keys := make([]string, 0, len(t.Subs))
 	for k := range t.Subs {
@@ -483,6 +600,7 @@ func genC11(g *Gen) {
 			"a": randScalar(r), "b": "${a}", "s": map[string]interface{}{"x": randTree(r, tc, 1), "r": "${a}-${s.x:d}"},
 			"m": map[string]interface{}{"k": randMap(r, tc, 1), "j": nil}, "l": []interface{}{randTree(r, tc, 1), nil, "${l.0:e}"},
 			"n": randMap(r, tc, 0), "z": nil, "r": "${res}", "q": "${obj}", "o": "${obj}", "p": "${lst}",
+			"o2": "${s}", "o3": "${m}",
 		}
 		if r.P(1, 3) {
 			data["n"] = nil
@@ -505,6 +623,11 @@ func genC11(g *Gen) {
 			g.Skip("not built")
 			continue
 		}
+		if r.Bool() {
+			// a list that has lost an entry keeps the storage: what is appended to a slice of it
+			// must not land there
+			c.Remove("l", 0, opts...)
+		}
 		ren := newRenamer()
 		st := &c11State{captured: &c11Captured{}}
 		// every read on its own, twice, with the object graph observed around it
@@ -512,8 +635,8 @@ func genC11(g *Gen) {
 		var seq [][2]string
 		for j := 0; j < k; j++ {
 			rd := reads[r.Intn(len(reads))]
-			if r.P(2, 5) { // the whole-config reads (Unpack, merge source, ...) are the last 14
-				rd = reads[len(reads)-14+r.Intn(14)]
+			if r.P(2, 5) { // the whole-config reads (Unpack, merge source, ...) are the last 15
+				rd = reads[len(reads)-15+r.Intn(15)]
 			}
 			before := snapshotNoReads(c, ren)
 			var r1, r2 string
@@ -545,9 +668,19 @@ func genC11(g *Gen) {
 		}
 		nG := 4 + r.Intn(5)
 		picks := make([][]int, nG)
+		var whole []int // the reads of the whole config (Unpack, merges from it, FlattenedKeys)
+		for pi, rd := range pure {
+			if strings.HasPrefix(rd.name, "Unpack") || strings.HasPrefix(rd.name, "merge source") || rd.name == "FlattenedKeys" {
+				whole = append(whole, pi)
+			}
+		}
 		for gi := range picks {
 			for j := 0; j < 12; j++ {
-				picks[gi] = append(picks[gi], r.Intn(len(pure)))
+				if r.P(1, 3) && len(whole) > 0 {
+					picks[gi] = append(picks[gi], whole[r.Intn(len(whole))])
+				} else {
+					picks[gi] = append(picks[gi], r.Intn(len(pure)))
+				}
 			}
 		}
 		base := map[int]string{}
